@@ -291,6 +291,28 @@ def x8(ctx, tab, sites, pp):
                     incs |= {c for c, t in e[3].items() if t == '+1'}
         guarded = {c for c in incs if guards[c][0] in cyc}
         r.inst('cycle:' + '>'.join(cyc), {'cycle': cyc, 'incremented': sorted(incs), 'guarded_on_cycle': sorted(guarded)})
+        # each level of one kind of nesting costs exactly one unit of exactly one budget: otherwise nestings that are legal
+        # (each kind <= LIMIT) fail early with ExceedRecursiveLimit
+        import itertools as _it
+        per_hop = []
+        for a, b in zip(cyc, cyc[1:]):
+            per_hop.append([e for e in edges if e[0] == a and e[1] == b])
+        _rep = set()
+        for combo in _it.product(*per_hop):
+            tot = {c: sum(1 for e in combo if e[3].get(c) == '+1') for c in counters}
+            spent = {c: n_ for c, n_ in tot.items() if n_}
+            if len(spent) > 1 and 'couple' not in _rep:
+                _rep.add('couple')
+                ln_ = [e[2].get('l') for e in combo if any(t == '+1' for t in e[3].values())]
+                r.fail('%s:cycle-couples-budgets:%s' % (PP, '>'.join(cyc)), pp.where(ln_[-1] if ln_ else tab[cyc[0]][2]['l']),
+                       'one round of the call cycle %s increments %s: every level of this kind of nesting also uses up the other budget, so nestings '
+                       'within both limits (for example a macro chain inside a deep include chain) end in ExceedRecursiveLimit' %
+                       (' -> '.join(cyc), ' and '.join('`%s`' % c for c in sorted(spent))))
+            elif len(spent) <= 1 and any(n_ > 1 for n_ in spent.values()) and 'twice' not in _rep:
+                _rep.add('twice')
+                c_ = [c for c, n_ in spent.items() if n_ > 1][0]
+                r.fail('%s:cycle-counts-twice:%s' % (PP, '>'.join(cyc)), pp.where(tab[cyc[0]][2]['l']),
+                       'one round of the call cycle %s increments `%s` %d times: only %s/%d levels succeed' % (' -> '.join(cyc), c_, spent[c_], limit_name, spent[c_]))
         if not guarded:
             r.fail('%s:cycle-unranked:%s' % (PP, '>'.join(cyc)), pp.where(tab[cyc[0]][2]['l']),
                    'call cycle %s has no counter that is both incremented and tested against %s on the cycle' % (' -> '.join(cyc), limit_name))
